@@ -22,7 +22,7 @@ ASSUMPTIONS = [
     "only the documented escapes (\\xHH, \\uHHHH, \\n, \\r, \\t, \\\\, \\\", \\') are in the domain",
 ]
 SYNTAX = (0x22, 0x5C, ord("x"), ord("u"), 0x0A, ord(";"), ord("{"), ord("}"), ord("#"), 0x27, ord("n"), ord("0"))
-BUILDER_BYTES = (b"MZ", b"", b" padded ", b"\x0b\x0c", b'a"b\\', b"\\x41", b"\x00\xff", b"x", b"\t\n")
+BUILDER_BYTES = (b"MZ", b"", b" padded ", b"\x0b\x0c", b'a"b\\', b"\\x41", b"\x00\xff", b"x", b"\t\n", b'"a"', b'""', b"C:\\Windows\\a.exe", b"\\\\.\\pipe\\x")
 MALFORMED = ('"MZ\\xZZ"', '"abc\\x4"', '"PE\\u12"', '"q\\u00"', '"\\x"')
 HIST_ALPHA = (0x5C, 0x22, 0x27, 0x6E, 0x78, 0x34, 0x31, 0x0A, 0x3B, 0xE9)  # \\ " ' n x 4 1 LF ; e-acute
 BOUNDS = {"quick": {"syntax_len": 3, "dict_every": 8}, "thorough": {"syntax_len": 4, "dict_every": 1}}
@@ -246,6 +246,31 @@ def chunk_productions(chunk, acc):
     from lark import Token
     from vmc.checks.c11 import KIND_CLASS_NAMES, live_alias
 
+    if kind == "start":
+        # global options through C2Profile.set_option() and through C2Profile(**kwargs)
+        for f in forms:
+            name = f[2][-1]
+            for b in BUILDER_BYTES:
+                for mode in ("set_option", "kwargs"):
+                    if mode == "kwargs" and not name.isidentifier():
+                        continue
+                    acc.transitions += 1
+                    acc.case(("builder-global", name, b, mode), nontrivial=True)
+                    case = {"kind": "builder", "block": "C2Profile", "keyword": name, "data": b.hex(), "mode": mode}
+                    try:
+                        if mode == "set_option":
+                            prof = cp.C2Profile()
+                            prof.set_option(name, b)
+                        else:
+                            prof = cp.C2Profile(**{name: b})
+                        lits = string_tokens(prof.tree)
+                        got = [cp.string_token_to_bytes(Token("STRING", x)) for x in lits]
+                        back = string_tokens(cp.C2Profile.from_text(prof.as_text()).tree)
+                    except Exception as e:  # noqa
+                        acc.fail("C12/builder/keyword-exception", case, b.hex(), f"{type(e).__name__}: {str(e)[:200]}")
+                        continue
+                    if len(prof.tree.children) != 1 or got != [b] or back != lits:
+                        acc.fail("C12/builder/keyword-value", case, {"statements": 1, "values": [b.hex()]}, {"statements": len(prof.tree.children), "values": [g.hex() if isinstance(g, bytes) else repr(g) for g in got], "reparsed": back})
     if kind in KIND_CLASS_NAMES:
         cls = getattr(cp, KIND_CLASS_NAMES[kind])
         for f in forms:
@@ -413,7 +438,8 @@ def replay(case):
         except Exception as e:  # noqa
             return {"ok": False, "expected": "bytes", "observed": f"{type(e).__name__}: {e}"}
     elif case["kind"] == "builder":
-        kind = next(k for k, c in __import__("vmc.checks.c11", fromlist=["x"]).KIND_CLASS_NAMES.items() if c == case["block"])
+        if case["block"] == "C2Profile":
+            chunk_productions({"blockkind": "start"}, a)
         for k, c in __import__("vmc.checks.c11", fromlist=["x"]).KIND_CLASS_NAMES.items():
             if c == case["block"]:
                 chunk_productions({"blockkind": k}, a)
